@@ -522,8 +522,22 @@ def run_property(ctx):
         if spec.get('srcfree'):
             from . import srcfree
             free = srcfree.run(ctx)
+        evl = None
+        if spec.get('srceval'):
+            from . import srceval
+            evl = srceval.run(ctx)
         for s in spec['suites']:
             run_suite(ctx, s)
+        if evl:
+            status, detail, info = evl
+            ctx.suite_stats.append(dict(suite='S-srceval', cases=0, distinct_nontrivial=0, mismatches=0, ops={}, samples=[],
+                                        rule='no inputs: replace_var and eval_recursive of src/parser.rs, translated, are proved equal to the model functions for all formulas, variables and fuels', exhaustive=False, profile='-', source_function=info))
+            if status == 'obligation-failed' and not any(not no_input for _, no_input in ctx.violations):
+                ctx.violation({'kind': 'proof-obligation', 'key': 'srceval:' + ctx.pid,
+                               'broken': 'src_replace_var_ok / src_eval_ok: replace_var or eval_recursive as regenerated from src/parser.rs is no longer the model function',
+                               'detail': detail}, no_input=True)
+            elif status == 'shape-not-recognised':
+                ctx.notes.append('source functions replace_var / eval_recursive: the translator does not recognise their shape any more (%s); the obligations were not re-derived in this run' % detail)
         if free:
             status, detail, info = free
             ctx.suite_stats.append(dict(suite='S-srcfree', cases=0, distinct_nontrivial=0, mismatches=0, ops={}, samples=[],
